@@ -27,6 +27,7 @@ func init() {
 			{ID: "C12.R4", Floor: 8, Run: c12r4, Text: "Dispatch aggregation siblings (NewDispatch, AddListener): events |= Subscriptions(); components = components.Or(c) when c != nil, hasComponents = false when nil; accessors of Dispatch and Callback return nil iff not restricted"},
 			{ID: "C12.R5", Floor: 1, Run: c12r5, Text: "freshness: every variable that guards or fills a notification inside a loop (guard flag, event bits, relation pointers, id lists) is assigned on every path of an iteration before the notification, except on a path skipped because no listener is installed"},
 			{ID: "C12.R6", Floor: 2, Run: constPrefilters, Text: "constant subscription pre-filters: only the two target setters (table in checker/rules_r3.go) test Subscriptions() against a constant mask before notifying, and the mask is event.TargetChanged; every other notification leaves filtering to subscribes() with the per-event types"},
+			{ID: "C12.R7", Floor: 2, Run: paramSlicesNotGrown, Text: "caller-owned slices that the library appends to are copied first: a slice parameter of an exported function stored into a field is never grown or element-written through that field anywhere in the package (Dispatch keeps the sub-listeners it was given, also those added later)"},
 		},
 	})
 }
